@@ -94,7 +94,10 @@ ChooseLayout ==
 
 View(a) == [decl |-> a.decl, phys |-> bufs[a.buf]]
 MustSwap(a, fn) == \E i \in DOMAIN init.kinds : BOMustSwap(init.kinds, View(a), fn, i)
-Refused(a, fn, ip) == ip /\ ~a.w /\ MustSwap(a, fn)         \* numpy: "array to be byte-swapped is read-only"
+\* in-place work on a non-writable array: must be refused when bytes have to change (numpy: "array to be
+\* byte-swapped is read-only"); may be refused or carried out (nothing to write) otherwise - the statement is silent
+MayRefuse(a, ip)    == ip /\ ~a.w
+Refused(a, fn, ip)  == MayRefuse(a, ip) /\ MustSwap(a, fn)
 CanStep == phase = "run" /\ Len(ops) < MaxDepth
 Op(fn, ip, keep) == [fn |-> fn, inplace |-> ip, keep |-> keep]
 
@@ -132,7 +135,7 @@ RecfileNativeInplace == CanStep /\ Conv("rnative", TRUE, FALSE)
 Reject ==
     /\ CanStep
     /\ \E fn \in Fns, keep \in BOOLEAN :
-         /\ Refused(arrs[cur], fn, TRUE)
+         /\ MayRefuse(arrs[cur], TRUE)
          /\ fn = "rnative" => ~keep
          /\ snaps' = Append(snaps, SnapOf(arrs, bufs, dtos, cur, "rejected"))
          /\ ops' = Append(ops, Op(fn, TRUE, keep))
@@ -172,6 +175,7 @@ Spec == Init /\ [][Next]_vars
 \* ---- theorems about the specification, checked on every behaviour ---------------------
 N == Len(ops)
 Cur(k) == snaps[k].arrs[snaps[k].res]           \* current array in snapshot k (1 = initial)
+MustSwapIn(x, fn) == \E i \in DOMAIN init.kinds : BOMustSwap(init.kinds, x, fn, i)     \* x: an observed array
 IsConv(k) == ops[k].fn \in BOFns
 ConvOK(k) == IsConv(k) /\ snaps[k + 1].err = "none"       \* a conversion that happened
 
@@ -242,10 +246,13 @@ MechRefines == N >= 1 /\ IsConv(N) =>
         lay == arrs[pre.res].lay          \* layouts never change once an object exists
         m == BOMechStep(init.kinds, BOLayContiguous(lay, init.plain), Cur(N).w, Cur(N), ops[N],
                         FixedDetect, NestedDetect, RetypeAlways, SwapFirst)
-    IN /\ m.rejected = (snaps[N + 1].err # "none")
-       /\ m.decl = Cur(N + 1).decl /\ m.phys = Cur(N + 1).phys
-       /\ m.same = (snaps[N + 1].res = pre.res)
-       /\ m.argdecl = snaps[N + 1].arrs[pre.res].decl
+        refused == snaps[N + 1].err # "none"
+        silent == MayRefuse(Cur(N), ops[N].inplace) /\ ~MustSwapIn(Cur(N), ops[N].fn)   \* both outcomes allowed: the code's is one
+    IN /\ silent \/ m.rejected = refused
+       /\ m.rejected = refused =>
+            /\ m.decl = Cur(N + 1).decl /\ m.phys = Cur(N + 1).phys
+            /\ m.same = (snaps[N + 1].res = pre.res)
+            /\ m.argdecl = snaps[N + 1].arrs[pre.res].decl
 
 \* ---- export ------------------------------------------------------------------------------
 Export == (DoExport /\ phase = "run" /\ N = MaxDepth) =>
